@@ -30,9 +30,28 @@ func AcquireDirLock(dir string, fs vfs.FS) (*DirLock, error) {
 		return nil, err
 	}
 	lockPath := filepath.Join(dir, "LOCK")
+	// A releasing holder unlinks the lock file. An open that raced with that
+	// unlink yields a descriptor for a file that is no longer (or never will
+	// be again) the one named LOCK; a flock on it excludes nobody. Retry until
+	// the locked descriptor and the path name the same file.
+	for attempt := 0; ; attempt++ {
+		l, stale, err := tryAcquireDirLock(dir, lockPath, fs)
+		if err != nil {
+			return nil, err
+		}
+		if !stale {
+			return l, nil
+		}
+		if attempt >= 100 {
+			return nil, fmt.Errorf("dirlock: lock file %q keeps being replaced", lockPath)
+		}
+	}
+}
+
+func tryAcquireDirLock(dir, lockPath string, fs vfs.FS) (_ *DirLock, stale bool, _ error) {
 	f, err := fs.OpenFileHandle(lockPath, os.O_CREATE|os.O_RDWR, 0o600)
 	if err != nil {
-		return nil, err
+		return nil, false, err
 	}
 	success := false
 	defer func() {
@@ -42,13 +61,25 @@ func AcquireDirLock(dir string, fs vfs.FS) (*DirLock, error) {
 	}()
 	fd, ok := vfs.FileFD(f)
 	if !ok {
-		return nil, fmt.Errorf("dirlock: file %q does not expose descriptor", lockPath)
+		return nil, false, fmt.Errorf("dirlock: file %q does not expose descriptor", lockPath)
 	}
 	if err := syscall.Flock(int(fd), syscall.LOCK_EX|syscall.LOCK_NB); err != nil {
 		if errors.Is(err, syscall.EWOULDBLOCK) {
-			return nil, fmt.Errorf("dirlock: directory %q already in use", dir)
+			return nil, false, fmt.Errorf("dirlock: directory %q already in use", dir)
 		}
-		return nil, err
+		return nil, false, err
+	}
+	held, herr := f.Stat()
+	named, nerr := fs.Stat(lockPath)
+	if herr != nil || nerr != nil || !os.SameFile(held, named) {
+		if nerr != nil && !errors.Is(nerr, os.ErrNotExist) {
+			return nil, false, nerr
+		}
+		if herr != nil {
+			return nil, false, herr
+		}
+		// Closing the descriptor drops the useless flock.
+		return nil, true, nil
 	}
 	if err := f.Truncate(0); err == nil {
 		pid := os.Getpid()
@@ -60,7 +91,7 @@ func AcquireDirLock(dir string, fs vfs.FS) (*DirLock, error) {
 		_ = f.Sync()
 	}
 	success = true
-	return &DirLock{file: f, path: lockPath, fs: fs}, nil
+	return &DirLock{file: f, path: lockPath, fs: fs}, false, nil
 }
 
 // Release unlocks the directory and removes the lock file.
@@ -69,18 +100,21 @@ func (l *DirLock) Release() error {
 		return nil
 	}
 	var firstErr error
+	// Unlink while the flock is still held: nobody can acquire the old file in
+	// between, and whoever opened it before the unlink notices (AcquireDirLock
+	// compares the locked descriptor with the path) and retries on a new file.
+	fs := vfs.Ensure(l.fs)
+	if err := fs.Remove(l.path); err != nil && !errors.Is(err, os.ErrNotExist) {
+		firstErr = err
+	}
 	if fd, ok := vfs.FileFD(l.file); ok {
-		if err := syscall.Flock(int(fd), syscall.LOCK_UN); err != nil {
+		if err := syscall.Flock(int(fd), syscall.LOCK_UN); err != nil && firstErr == nil {
 			firstErr = err
 		}
-	} else {
+	} else if firstErr == nil {
 		firstErr = fmt.Errorf("dirlock: file %q does not expose descriptor", l.path)
 	}
 	if err := l.file.Close(); err != nil && firstErr == nil {
-		firstErr = err
-	}
-	fs := vfs.Ensure(l.fs)
-	if err := fs.Remove(l.path); err != nil && !errors.Is(err, os.ErrNotExist) && firstErr == nil {
 		firstErr = err
 	}
 	l.file = nil
